@@ -103,7 +103,7 @@ PlantSeq == << <<"p", "user.go">>, <<"p", "zz_generatedx.go">>, <<"p", "zz_gener
                <<"p", "zz_generated.assets/logo.txt">>,
                (* an editor's lock file (dangling symbolic link): q's directory cannot be hashed *)
                <<"q", ".#types.go">> >>
-PlantSets == IF AllPlants THEN {S \in SUBSET (1..Len(PlantSeq)) : Cardinality(S) <= 2} \cup {1..Len(PlantSeq), {4, 9, 10}, {2, 3, 7}, {8, 9, 10, 11}}     \* every pair
+PlantSets == IF AllPlants THEN {S \in SUBSET (1..11) : Cardinality(S) <= 2} \cup {1..Len(PlantSeq), {4, 9, 10}, {2, 3, 7}, {8, 9, 10, 11}, {12}, {13}, {12, 13}}     \* every pair of the first eleven
              ELSE { {}, 1..Len(PlantSeq), {4, 6}, {2, 3, 7}, {1, 5}, {8, 9, 10, 11}, {4, 9, 10}, {12}, {13} }
 PlantOps(S) == LET idx == SelectSeq([i \in 1..Len(PlantSeq) |-> i], LAMBDA i : i \in S)
                IN [k \in 1..Len(idx) |-> AddUser(PlantSeq[idx[k]][1], PlantSeq[idx[k]][2])]
